@@ -395,6 +395,12 @@ func handleReuse(reuse Tensor, expectedShape Shape, safe bool) (retVal *Dense, e
 		if !safe {
 			return
 		}
+		if retVal.IsView() && retVal.RequiresIterator() {
+			// the products write their result as one plain array: a non-contiguous view cannot take it (re-laying it out, as
+			// is done for other destinations below, would write over the parent's elements between the view's)
+			err = errors.Errorf("a non-contiguous view (shape %v, strides %v) cannot be the reuse tensor of a product", retVal.Shape(), retVal.Strides())
+			return
+		}
 		if err = reuseCheckShape(retVal, expectedShape); err != nil {
 			err = errors.Wrapf(err, "Unable to process reuse *Dense Tensor. Shape error.")
 			return
